@@ -35,6 +35,9 @@ type Transport struct {
 	nFlush    int
 	BytesRead int
 	OnCall    func(c Call) // optional observer (called with the lock held)
+	// Block, when set, is used by Read instead of waiting on the condition variable: it must return
+	// once ready() holds (the cooperative controller parks the goroutine meanwhile).
+	Block func(ready func() bool)
 }
 
 type addr struct{}
@@ -100,6 +103,16 @@ func (t *Transport) Read(p []byte) (int, error) {
 		}
 		if t.eof {
 			return 0, t.readErr
+		}
+		if t.Block != nil {
+			t.mu.Unlock()
+			t.Block(func() bool {
+				t.mu.Lock()
+				defer t.mu.Unlock()
+				return t.closed || t.eof || len(t.chunks) > 0
+			})
+			t.mu.Lock()
+			continue
 		}
 		t.cond.Wait()
 	}
